@@ -372,9 +372,15 @@ fn run_crash_in(case: &C04Case, at: i64, it: &mut Interp, log: &std::path::Path)
     }
     // whatever the collector had queued (including for the in-flight append) may or may not have run
     it.model.reopen();
+    let log_tail: String = std::fs::read_to_string(log)
+        .map(|s| {
+            let l: Vec<&str> = s.lines().filter(|l| !l.ends_with("unarmed")).collect();
+            l[l.len().saturating_sub(8)..].join(" | ")
+        })
+        .unwrap_or_default();
     it.observe_all("after crash").map_err(|mut f| {
         f.msg = format!(
-            "after crash at event {at} ({event_kind}, {}{}): {}",
+            "after crash at event {at} ({event_kind}, {}{}) [acked {acked} ops; last events: {log_tail}]: {}",
             if case.crash.before { "before" } else { "after" },
             if case.crash.power {
                 format!(", power loss keeping {}/4 of the unsynced journal bytes", case.crash.torn_q)
